@@ -38,6 +38,29 @@ type Config struct {
 	MethodReturnsTypedefEnum bool
 	OneLetterPrefixVar       bool
 	ExoticPrefixChars        bool
+	I8Type                   bool // the base type i8 (alias of byte in Thrift) as field / argument / return type
+	GeneratorDerivedNames    bool // type names shaped like the generators' own derived names: NewX, XArgs, XResult
+	ConstMapNonStringKeys    bool // every file gets a constant map<i32,string> / map<bool,..> with entries
+}
+
+// keyword lists of the stress classes TargetKeywordNames / GeneratorInternalNames
+// (all are plain identifiers for the Frugal grammar).
+var (
+	targetKeywordNames     = []string{"type", "func", "range", "class", "lambda", "def", "async", "await", "final", "var"}
+	generatorInternalNames = []string{"fctx", "ctx", "r", "err", "args", "result", "iprot", "oprot", "p"}
+)
+
+// stressName returns a not yet used name of list (reserving it in n), "" when
+// all are taken.
+func (g *gen) stressName(n *namer, list []string) string {
+	start := g.rng.Intn(len(list))
+	for i := range list {
+		w := list[(start+i)%len(list)]
+		if n.reserve(w) {
+			return w
+		}
+	}
+	return ""
 }
 
 // CoreConfig is what a careful user writes every day.
@@ -171,7 +194,15 @@ func Generate(rng *rand.Rand, cfg Config) *Program {
 		g.visible = nil
 		// includes: every earlier file with probability, at least one if any exists for the root
 		for j, prev := range g.prog.Files {
-			if rng.Intn(3) > 0 || (i == nfiles-1 && j == len(g.prog.Files)-1) {
+			orphan := true // every file must be reachable from the root
+			for _, other := range g.prog.Files {
+				for _, inc := range other.Includes {
+					if inc.Path == prev.FileName() {
+						orphan = false
+					}
+				}
+			}
+			if rng.Intn(3) > 0 || (i == nfiles-1 && (orphan || j == len(g.prog.Files)-1)) {
 				f.Includes = append(f.Includes, &Include{Path: prev.FileName()})
 				g.visible = append(g.visible, prev)
 			}
@@ -236,6 +267,14 @@ func (g *gen) annotations() []Annotation {
 }
 
 func (g *gen) typeName() string {
+	if g.cfg.GeneratorDerivedNames && g.rng.Intn(3) == 0 {
+		base := g.types.make(1, 1)
+		name := []string{"New" + base, base + "Args", base + "Result"}[g.rng.Intn(3)]
+		if g.types.reserve(name) {
+			g.feat("generator_derived_names")
+			return name
+		}
+	}
 	style := 1
 	switch r := g.rng.Intn(10); {
 	case r < 6:
@@ -276,6 +315,14 @@ func (g *gen) genFile(f *File, root bool) {
 			g.typedefs[f] = append(g.typedefs[f], td)
 			add(&Decl{TypeDef: td})
 		}
+	}
+	if (cfg.TypedefOfEnum || cfg.MethodReturnsTypedefEnum) && len(g.enums[f]) > 0 {
+		// the stress class must be present in every file of its pool
+		e := g.enums[f][g.rng.Intn(len(g.enums[f]))]
+		td := &TypeDef{Type: T(e.Name), Name: g.typeName()}
+		g.feat("typedef_of_enum")
+		g.typedefs[f] = append(g.typedefs[f], td)
+		add(&Decl{TypeDef: td})
 	}
 	// struct-likes
 	nTypes := cfg.MinTypes + g.rng.Intn(cfg.MaxTypes-cfg.MinTypes+1)
@@ -324,6 +371,24 @@ func (g *gen) genFile(f *File, root bool) {
 				add(&Decl{TypeDef: td})
 			}
 		}
+	}
+	if cfg.TypedefOfStruct && len(g.structs[f]) > 0 {
+		st := g.structs[f][g.rng.Intn(len(g.structs[f]))]
+		td := &TypeDef{Type: T(st.Name), Name: g.typeName()}
+		g.feat("typedef_of_struct")
+		g.typedefs[f] = append(g.typedefs[f], td)
+		add(&Decl{TypeDef: td})
+	}
+	if cfg.ConstMapNonStringKeys {
+		var c *Const
+		if g.rng.Intn(2) == 0 {
+			c = &Const{Name: g.types.make(3, 2), Type: MapOf(T("i32"), T("string")), Value: []KV{{int64(1), "a"}, {int64(-2), "b"}}}
+		} else {
+			c = &Const{Name: g.types.make(3, 2), Type: MapOf(T("bool"), T("i64")), Value: []KV{{true, int64(1)}}}
+		}
+		g.feat("const_map_non_string_key")
+		g.consts[f] = append(g.consts[f], c)
+		add(&Decl{Const: c})
 	}
 	if cfg.Consts {
 		for i, n := 0, g.rng.Intn(4); i < n; i++ {
@@ -498,6 +563,10 @@ func (g *gen) allExceptions() []*Struct {
 // fieldType draws a type usable for a field / argument / return value.
 func (g *gen) fieldType(depth int, later []*Struct) *Type {
 	for {
+		if g.cfg.I8Type && g.rng.Intn(5) == 0 {
+			g.feat("i8")
+			return T("i8")
+		}
 		switch r := g.rng.Intn(20); {
 		case r < 8:
 			return T(BaseTypes[g.rng.Intn(len(BaseTypes))])
@@ -578,7 +647,7 @@ func (g *gen) genTypeDef() *TypeDef {
 					g.feat("typedef_chain_via_include")
 				}
 			}
-		case r < 8 && g.cfg.TypedefOfEnum:
+		case r < 8 && (g.cfg.TypedefOfEnum || g.cfg.MethodReturnsTypedefEnum):
 			if e, f := g.pickEnum(); e != nil {
 				td.Type = T(g.ref(f, e.Name))
 				g.feat("typedef_of_enum")
@@ -627,6 +696,18 @@ func (g *gen) containerOfSimple() *Type {
 }
 
 func (g *gen) fieldName(n *namer) string {
+	if g.cfg.TargetKeywordNames && g.rng.Intn(3) == 0 {
+		if w := g.stressName(n, targetKeywordNames); w != "" {
+			g.feat("target_keyword_names")
+			return w
+		}
+	}
+	if g.cfg.GeneratorInternalNames && g.rng.Intn(3) == 0 {
+		if w := g.stressName(n, generatorInternalNames); w != "" {
+			g.feat("generator_internal_names")
+			return w
+		}
+	}
 	switch r := g.rng.Intn(10); {
 	case r < 5:
 		return n.make(0, 1+g.rng.Intn(2))
@@ -683,6 +764,23 @@ func (g *gen) fillStruct(s *Struct, later []*Struct) {
 			}
 		}
 		s.Fields = append(s.Fields, f)
+	}
+	if g.cfg.CaseTwinFields && len(s.Fields) > 0 && g.rng.Intn(2) == 0 {
+		// foo / Foo in one struct: legal IDL (field names are case sensitive)
+		for _, orig := range s.Fields {
+			c := orig.Name[0]
+			if c < 'a' || c > 'z' {
+				continue
+			}
+			id++
+			twin := &Field{ID: id, Name: strings.ToUpper(orig.Name[:1]) + orig.Name[1:], Type: T("i32")}
+			if s.Kind != KindUnion {
+				twin.Req = ReqOptional
+			}
+			s.Fields = append(s.Fields, twin)
+			g.feat("case_twin_fields")
+			break
+		}
 	}
 	if g.cfg.SelfReference && s.Kind == KindStruct && g.rng.Intn(8) == 0 {
 		id++
@@ -755,6 +853,9 @@ func (g *gen) literalFor(t *Type, depth int) interface{} {
 				continue
 			}
 			seen[fmt.Sprint(k)] = true
+			if _, isString := k.(string); !isString {
+				g.feat("const_map_non_string_key") // tag only: no PRNG draw, the program text is unchanged
+			}
 			out = append(out, KV{k, v})
 		}
 		return out
@@ -859,6 +960,12 @@ func (g *gen) genService() *Service {
 		default:
 			m.Ret = g.fieldType(0, nil)
 		}
+		if g.cfg.MethodReturnsTypedefEnum && !m.Oneway && g.rng.Intn(2) == 0 {
+			if td, tf := g.pickTypeDef(g.underlyingIsEnum); td != nil {
+				m.Ret = T(g.ref(tf, td.Name))
+				g.feat("method_returns_typedef_enum")
+			}
+		}
 		if !m.Oneway {
 			excs := g.allExceptions()
 			if len(excs) > 0 && g.rng.Intn(2) == 0 {
@@ -888,6 +995,19 @@ func (g *gen) genService() *Service {
 		s.Methods = append(s.Methods, m)
 	}
 	return s
+}
+
+// underlyingIsEnum reports whether t (written in tf) resolves to an enum.
+func (g *gen) underlyingIsEnum(t *Type, tf *File) bool {
+	u, uf := g.prog.underlyingWith(g.file, tf, t)
+	if u.IsContainer() || IsBase(u.Name) {
+		return false
+	}
+	saved := g.prog.Files
+	g.prog.Files = append(append([]*File{}, saved...), g.file)
+	r := g.prog.Lookup(uf, u.Name)
+	g.prog.Files = saved
+	return r != nil && r.Enum != nil
 }
 
 func (g *gen) fileOfException(ex *Struct) *File {
